@@ -5,6 +5,9 @@
 #include "rkcommon/utility/TimeStamp.h"
 
 #include <atomic>
+#include <condition_variable>
+#include <functional>
+#include <mutex>
 #include <thread>
 
 using namespace rkcommon::utility;
@@ -21,8 +24,96 @@ enum
   OBS_NKINDS
 };
 
+// runs jobs one at a time on a persistent thread; run() returns when the job is done (mutex hand-over in both directions,
+// so consecutive operations are ordered by happens-before whichever thread executes them)
+struct Exec
+{
+  std::mutex m;
+  std::condition_variable cv;
+  std::function<void()> job;
+  bool has = false, done = false, quit = false;
+  std::exception_ptr ex;
+  std::thread th;
+  Exec()
+  {
+    th = std::thread([this] {
+      for (;;) {
+        std::unique_lock<std::mutex> l(m);
+        cv.wait(l, [&] { return has || quit; });
+        if (quit)
+          return;
+        auto j = std::move(job);
+        has = false;
+        l.unlock();
+        std::exception_ptr e;
+        try {
+          j();
+        } catch (...) {
+          e = std::current_exception();
+        }
+        l.lock();
+        ex = e;
+        done = true;
+        cv.notify_all();
+      }
+    });
+  }
+  void run(std::function<void()> f)
+  {
+    std::unique_lock<std::mutex> l(m);
+    job = std::move(f);
+    has = true;
+    done = false;
+    cv.notify_all();
+    cv.wait(l, [&] { return done; });
+    if (ex) {
+      auto e = ex;
+      ex = nullptr;
+      std::rethrow_exception(e);
+    }
+  }
+  ~Exec()
+  {
+    {
+      std::lock_guard<std::mutex> l(m);
+      quit = true;
+    }
+    cv.notify_all();
+    th.join();
+  }
+};
+
+// ACROSS = false: the whole history on the calling thread.  ACROSS = true: every operation is executed by one of four
+// threads chosen by the case (the caller, two long-lived workers, a thread created for that one operation), strictly one at
+// a time - still ONE history, as when observables are committed on a worker and polled on the application thread.
+template <bool ACROSS>
 static void observer_case(const std::vector<Op> &ops, pbt::Ctx &ctx)
 {
+  std::unique_ptr<Exec> workers[2];
+  if (ACROSS)
+    for (auto &w : workers)
+      w.reset(new Exec());
+  std::set<int> threadsUsed;
+  auto runOn = [&](int which, std::function<void()> f) {
+    threadsUsed.insert(which);
+    if (!ACROSS || which == 0)
+      f();
+    else if (which <= 2)
+      workers[which - 1]->run(std::move(f));
+    else {
+      std::exception_ptr e;
+      std::thread t([&] {
+        try {
+          f();
+        } catch (...) {
+          e = std::current_exception();
+        }
+      });
+      t.join();
+      if (e)
+        std::rethrow_exception(e);
+    }
+  };
   // heap-allocated so that ASan sees any dangling access in either destruction order
   std::unique_ptr<Observable> subj[3];
   std::unique_ptr<Observer> obs[6];
@@ -49,6 +140,7 @@ static void observer_case(const std::vector<Op> &ops, pbt::Ctx &ctx)
   for (const Op &op : ops) {
     int kind = ((op.k % OBS_NKINDS) + OBS_NKINDS) % OBS_NKINDS;
     int s = (int)(op.a % 3), o = (int)(op.b % 6);
+    runOn(ACROSS ? (int)((op.c / 3) % 4) : 0, [&] {
     switch (kind) {
     case OBS_CREATE_OBSERVABLE:
       if (subj[s])
@@ -121,6 +213,7 @@ static void observer_case(const std::vector<Op> &ops, pbt::Ctx &ctx)
       break;
     }
     }
+    });
   }
   // final sweep: every observer is polled once more, then everything is destroyed in a generated order
   for (int i = 0; i < 6; ++i)
@@ -146,7 +239,67 @@ static void observer_case(const std::vector<Op> &ops, pbt::Ctx &ctx)
     ctx.label("observer-created-after-notification");
   if (observableFirst)
     ctx.label("observable-destroyed-first");
-  ctx.nt(multiNotify || createdAfterNotify || observableFirst);
+  if (ACROSS && threadsUsed.size() >= 2)
+    ctx.label("history-spread-over>=2-threads");
+  ctx.nt((multiNotify || createdAfterNotify || observableFirst) && (!ACROSS || threadsUsed.size() >= 2));
+}
+
+// ---------------------------------------------------------------- observers whose polls and notifications are far apart
+// Time stamps are a process-wide counter: an application that runs for days issues billions of them between one poll of a
+// rarely changing object and its next notification.  One case (thorough tier, ASan build only - 2^32 stamps take about a
+// minute): distances of 2^31+d and 2^32+d stamps between creation / poll and notification, both ways round.
+static void burnStamps(unsigned long long n)
+{
+  for (unsigned long long i = 0; i < n; ++i) {
+    TimeStamp t;
+    (void)t;
+  }
+}
+// the case says whether it runs (decided by the generator from the tier), so a saved case replays whatever the tier
+static bool farApartEnabled()
+{
+#ifdef C19_TSAN
+  return false;
+#else
+  const char *tier = getenv("PBT_TIER");
+  return tier && std::string(tier) == "thorough";
+#endif
+}
+static void far_apart_case(const std::pair<int, int> &cs, pbt::Ctx &ctx)
+{
+  const int delta = cs.second;
+  if (!cs.first) {
+    ctx.label("skipped (thorough tier, ASan build only)");
+    return;
+  }
+  static bool ran = false;  // once per process whatever the scale (a replay is a process of its own)
+  if (ran) {
+    ctx.label("skipped (once per process)");
+    return;
+  }
+  ran = true;
+  const unsigned long long d = (unsigned long long)(((delta % 1000) + 1000) % 1000);
+  Observable subj;
+  Observer a(subj), b(subj);
+  subj.notifyObservers();  // N1
+  burnStamps((1ull << 31) + d);
+  Observer c(subj);  // created 2^31+d stamps after the last notification
+  PBT_ASSERT_MSG(!c.wasNotified(), "an observer created 2^31+" << d << " time stamps after the last notification reports it");
+  PBT_ASSERT_MSG(a.wasNotified(), "a notification 2^31+" << d << " time stamps old is not reported at the observer's first poll");
+  PBT_ASSERT(!a.wasNotified());
+  subj.notifyObservers();  // N2: b's last observation is 2^31+d stamps older
+  PBT_ASSERT_MSG(b.wasNotified(), "a notification is not reported when the observer's previous observation is 2^31+" << d << " time stamps older");
+  PBT_ASSERT(c.wasNotified() && a.wasNotified());
+  PBT_ASSERT(!a.wasNotified() && !b.wasNotified() && !c.wasNotified());
+  burnStamps((1ull << 31) + 5);  // a,b,c last observed > 2^31 ago; process total now beyond 2^32
+  PBT_ASSERT_MSG(!a.wasNotified(), "an observer polled 2^31 time stamps after its previous poll reports a notification that never happened");
+  subj.notifyObservers();  // N3
+  PBT_ASSERT_MSG(b.wasNotified(), "a notification is not reported after the process issued more than 2^32 time stamps");
+  Observer e(subj);
+  PBT_ASSERT(!e.wasNotified());
+  PBT_ASSERT(a.wasNotified() && c.wasNotified());
+  ctx.label("distances 2^31 and 2^32 exercised");
+  ctx.nt(true);
 }
 
 // ---------------------------------------------------------------- time stamps
@@ -251,7 +404,10 @@ static void register_properties()
 {
   using namespace rc;
   auto ops = pbt::vec(pbt::genOpWeighted({{3, OBS_CREATE_OBSERVABLE}, {1, OBS_DESTROY_OBSERVABLE}, {5, OBS_CREATE_OBSERVER}, {2, OBS_DESTROY_OBSERVER}, {5, OBS_NOTIFY}, {6, OBS_POLL}}, 5, 11, 11), 40);
-  pbt::property<std::vector<Op>>("observer_history", 8000, ops, observer_case);
+  pbt::property<std::vector<Op>>("observer_history", 8000, ops, observer_case<false>);
+  pbt::property<std::vector<Op>>("observer_history_across_threads", 1500, ops, observer_case<true>);
+  pbt::property<std::pair<int, int>>("observer_far_apart", 1, gen::pair(gen::just(farApartEnabled() ? 1 : 0), pbt::range<int>(0, 999)), far_apart_case);
+  pbt::registry().back()->noShrink = true;
   auto prog = pbt::vec(pbt::range<int>(0, 59), 200);
   auto progs = gen::mapcat(pbt::range<int>(1, 8), [prog](int n) { return gen::container<std::vector<std::vector<int>>>((size_t)n, prog); });
   pbt::property<StampCase>("timestamps", 400, gen::build<StampCase>(gen::set(&StampCase::programs, progs), gen::set(&StampCase::phase, pbt::range<int>(0, 4095))), stamp_case);
